@@ -306,10 +306,10 @@ namespace GeographicLib {
   Math::real Geoid::height(real lat, real lon) const {
     using std::isnan;           // Needed for Centos 7, ubuntu 14
     lat = Math::LatFix(lat);
+    lon = Math::AngNormalize(lon); // +/-inf -> nan
     if (isnan(lat) || isnan(lon)) {
       return Math::NaN();
     }
-    lon = Math::AngNormalize(lon);
     real
       fx =  lon * _rlonres,
       fy = -lat * _rlatres;
@@ -416,6 +416,14 @@ namespace GeographicLib {
     north = Math::LatFix(north);
     west = Math::AngNormalize(west); // west in [-180, 180)
     east = Math::AngNormalize(east);
+    {
+      using std::isnan;
+      // With nans (or infinite longitudes) the area is undefined
+      if (isnan(south) || isnan(north) || isnan(west) || isnan(east)) {
+        CacheClear();
+        return;
+      }
+    }
     if (east <= west)
       east += Math::td;         // east - west in (0, 360]
     int
